@@ -32,7 +32,13 @@ type c13View struct {
 	Headers  [][2]string `json:"headers"`
 	Cookies  [][2]string `json:"cookies"`
 	Body     string      `json:"body"` // JSON
+	// IPs: the client addresses shown to the pipeline (observed only; compared for the entries that have
+	// no peer they trust: none of them may stem from a header of the request)
+	IPs []string `json:"ips"`
 }
+
+// c13ClaimedAddr is the address the request claims to come from in the entries that trust nobody.
+const c13ClaimedAddr = "198.51.100.7"
 
 type c13EntryObs struct {
 	Positive bool        `json:"positive"`
@@ -396,6 +402,7 @@ func c13Cmd(args []string) error {
 			Canon: c13View{
 				Method: method, Scheme: scheme, Host: host, Path: p, Query: canonQuery(query),
 				Captures: sortedPairs(caps), Headers: sortedPairs(canonH), Cookies: sortedPairs(canonC), Body: canonBody,
+				IPs: []string{},
 			},
 			Expect: expect, Status: http.StatusForbidden,
 			Obs: map[string]c13EntryObs{},
@@ -510,11 +517,14 @@ func c13Exec(beds map[string]*client.Client, c *c13Case) error {
 			mode = app.Proxy
 			req = client.Request{Method: method, Host: host, Path: path, Query: query, Body: body, Chunked: l.Chunked}
 			req.Headers = append(req.Headers, hdrs...)
+			req.Headers = append(req.Headers, [2]string{"X-Forwarded-For", c13ClaimedAddr})
 		default:
 			mode = app.Envoy
+			// no call metadata: what the checked request says about its origin is a claim of the client
 			req = client.Request{
 				Method: method, Scheme: scheme, Host: host, Path: path, Query: query, Body: body,
-				Headers: hdrs, EnvoyPathWithQuery: entry == "envoy",
+				Headers:            append(append([][2]string{}, hdrs...), [2]string{"X-Forwarded-For", c13ClaimedAddr}),
+				EnvoyPathWithQuery: entry == "envoy",
 			}
 		}
 
@@ -529,7 +539,7 @@ func c13Exec(beds map[string]*client.Client, c *c13Case) error {
 		}
 
 		eo := c13EntryObs{Positive: o.Positive, Status: o.Status, Up: [][2]string{}}
-		eo.View = c13View{Captures: [][2]string{}, Headers: [][2]string{}, Cookies: [][2]string{}}
+		eo.View = c13View{Captures: [][2]string{}, Headers: [][2]string{}, Cookies: [][2]string{}, IPs: []string{}}
 
 		if o.Positive {
 			var v scripted.View
@@ -545,7 +555,7 @@ func c13Exec(beds map[string]*client.Client, c *c13Case) error {
 			eo.View = c13View{
 				Method: v.Method, Scheme: v.Scheme, Host: v.Host, Path: v.Path, Query: canonQuery(v.Query),
 				Captures: sortedPairs(v.Captures), Headers: sortedPairs(v.Headers), Cookies: sortedPairs(v.Cookies),
-				Body: string(b),
+				Body: string(b), IPs: append([]string{}, v.IPs...),
 			}
 
 			upm := map[string]string{}
